@@ -180,6 +180,10 @@ func c13r1(c *RC) {
 
 func c13r2(c *RC) {
 	pr := c.P
+	if cf := pr.Fn("exec.(*compiler).compile"); cf != nil {
+		n := loopCaptures(c, cf, "pipeline")
+		c.Floor("closures stored by loops of compile", n, 2)
+	}
 	sliceCapabilityAsserts(c, "internal/slicecache.Cacheable", "Prefixed(Cache(x)) is compiled as if it had no cache: nothing is written, and complete shard files are ignored and recomputed")
 	fn := c.MustFn("exec.(*compiler).compile")
 	if fn == nil {
@@ -370,6 +374,23 @@ func c13r3(c *RC) {
 			})
 		}
 		c.Check(ok, nf.QName()+"|presence-is-stat-success", pr.Pos(nf.Body.Pos()), "a shard is no longer considered cached exactly when its file can be stat'ed")
+		// every shard is looked up: the per-shard callback never returns an
+		// error (which would stop the traversal at the first missing file)
+		always := true
+		nlit := 0
+		for _, l := range nf.Lits {
+			if l.Type.Results == nil || len(l.Type.Results.List) != 1 {
+				continue
+			}
+			nlit++
+			ast.Inspect(l.Body, func(n ast.Node) bool {
+				if r, isR := n.(*ast.ReturnStmt); isR && len(r.Results) == 1 && expr(r.Results[0]) != "nil" {
+					always = false
+				}
+				return true
+			})
+		}
+		c.Check(always && nlit > 0, nf.QName()+"|every-shard-is-looked-up", pr.Pos(nf.Body.Pos()), "the per-shard lookup can return an error to the traversal, which then stops at the first missing shard file: shards whose files exist are left marked uncached and are recomputed instead of read")
 	}
 	// path is a function of prefix, shard and shard count
 	if pf := c.MustFn("internal/slicecache.(*FileShardCache).path"); pf != nil {
